@@ -218,12 +218,29 @@ func ruleSibling(p *Program, r *Result) {
 					continue
 				}
 				bo, isB := iff.Cond.(*ssa.BinOp)
-				if !isB || bo.Op != token.NEQ {
+				if !isB || (bo.Op != token.NEQ && bo.Op != token.EQL) {
 					continue
 				}
-				if call, isC := bo.X.(*ssa.Call); isC {
-					if f := call.Common().StaticCallee(); f != nil && f.Name() == "Len" && len(id.Succs[0].Preds) == 1 && (id.Succs[0] == pr.Block() || id.Succs[0].Dominates(pr.Block())) {
-						if sumOfLengthReads(bo.Y) {
+				// the edge on which the two sizes differ (the test may be written either way round)
+				diff := id.Succs[0]
+				if bo.Op == token.EQL {
+					diff = id.Succs[1]
+				}
+				size, sum := bo.X, bo.Y
+				isLenCall := func(v ssa.Value) bool {
+					c, isC := v.(*ssa.Call)
+					if !isC {
+						return false
+					}
+					f := c.Common().StaticCallee()
+					return f != nil && f.Name() == "Len"
+				}
+				if !isLenCall(size) {
+					size, sum = sum, size
+				}
+				if call, isC := size.(*ssa.Call); isC {
+					if f := call.Common().StaticCallee(); f != nil && f.Name() == "Len" && len(diff.Preds) == 1 && (diff == pr.Block() || diff.Dominates(pr.Block())) {
+						if sumOfLengthReads(sum) {
 							ok = true
 							sumIfBlock = id
 						}
